@@ -208,6 +208,9 @@ func Build(s Spec) *Op {
 		op.UniqueSuffix = s.Suffix
 		op.UpdC, op.RecC = s.NextUpd, s.NextRec
 		op.NextC = s.NextRec
+		if s.SignedKey != nil && s.NextRec == s.SignedKey.Commitment(s.Code) {
+			op.ParseOK = false // validateSignedDataForRecovery refuses re-use of the revealed key
+		}
 	case operation.TypeDeactivate:
 		ss := s.SignedSfx
 		if ss == "" {
